@@ -1,8 +1,1493 @@
-//! C09 – not implemented yet.
-use mvlib::Ctx;
-use serde_json::Value;
+//! C09 – output files lay out banks and segments exactly as configured.
+//!
+//! Every configuration is written to a fresh scratch project (`main.asm` + `mos.toml`) and built by
+//! the REAL `mos` executable (`mos -e Short --no-color build`); the exit status and every file in
+//! `target/` are compared with a layout model written from the property statement (not from
+//! `binary_writer.rs`).
+//!
+//! A configuration is a vector of factor values over a shape (B banks, S segments):
+//!   per bank    : size {none, exact, +4, -1} (relative to the span the model computes),
+//!                 fill {none, 0, $ff}, filename {none, a.bin, b.bin},
+//!                 create-segment {none, true+used, true+unused}
+//!   per segment : start {$1000, $1004, $1002, $0ffe, $2000, segments.<prev>.end,
+//!                 segments.<prev>.start, $fffc, $fffe, segments.<next>.end}, pc {none, $8000},
+//!                 write {none, false}, bank {each bank, none, "nope"}; content = 4 bytes i*16+j
+//!   global      : output-format {unset, prg, bin}, output-filename {unset, out.x},
+//!                 order of the `.segment` blocks {definition order, reversed},
+//!                 order of definitions {banks first, segments first}
+//! The full product is far too large for one process per element, therefore the space is the union
+//! of Hamming balls (all configurations that differ in at most r factors) around a set of bases:
+//! the canonical base of every shape and the full product of the placement core (start options x
+//! assignment to the defined banks, plain and with a sized+filled first bank). Radii per tier are
+//! written to the evidence.
+//!
+//! No verdict (counted under `noverdict_*` / `partial_*`) where the statement is silent:
+//! `segments.x.end` of a segment with `pc`, a single segment without bank while banks are defined
+//! (auto-assigned by design), `prg` while the only bank has its own filename (where does the header
+//! go), banks without any written byte, a `create-segment` segment whose address matters (its start
+//! is not documented), output-format unset with several banks (file extension / may fail).
 
-pub fn run(_ctx: &Ctx, _replay: Option<&Value>) -> i32 {
-    eprintln!("C09: engine not implemented yet");
-    2
+use mvlib::{fnv, Ctx, Finding};
+use rayon::prelude::*;
+use serde_json::{json, Value};
+use std::collections::{BTreeMap, BTreeSet, HashSet};
+use std::path::{Path, PathBuf};
+use std::process::Command;
+use std::sync::atomic::{AtomicBool, AtomicU64, Ordering};
+use std::sync::Mutex;
+
+// ------------------------------------------------------------------------------------------------
+// configuration space
+
+#[derive(Clone, Copy, Debug, PartialEq, Eq, Hash, PartialOrd, Ord)]
+struct Shape {
+    b: usize,
+    s: usize,
+}
+
+type Vector = Vec<u8>;
+
+// bank factors
+const F_SIZE: usize = 0;
+const F_FILL: usize = 1;
+const F_FILE: usize = 2;
+const F_CREATE: usize = 3;
+// segment factors
+const F_START: usize = 0;
+const F_PC: usize = 1;
+const F_WRITE: usize = 2;
+const F_BANK: usize = 3;
+// global factors
+const G_FORMAT: usize = 0;
+const G_OUTNAME: usize = 1;
+const G_USEORDER: usize = 2;
+const G_DEFORDER: usize = 3;
+
+const SIZE_NAMES: [&str; 4] = ["none", "exact", "+4", "-1"];
+const FILL_NAMES: [&str; 3] = ["none", "0", "$ff"];
+const FILE_NAMES: [&str; 3] = ["none", "a.bin", "b.bin"];
+const CREATE_NAMES: [&str; 3] = ["none", "used", "unused"];
+const START_NAMES: [&str; 10] = [
+    "$1000",
+    "$1004",
+    "$1002",
+    "$0ffe",
+    "$2000",
+    "prev.end",
+    "prev.start",
+    "$fffc",
+    "$fffe",
+    "next.end",
+];
+const START_ABS: [i64; 10] = [0x1000, 0x1004, 0x1002, 0x0ffe, 0x2000, -1, -1, 0xfffc, 0xfffe, -1];
+const ST_PREV_END: u8 = 5;
+const ST_PREV_START: u8 = 6;
+const ST_NEXT_END: u8 = 9;
+const FORMAT_NAMES: [&str; 3] = ["unset", "prg", "bin"];
+
+impl Shape {
+    fn len(&self) -> usize {
+        4 * self.b + 4 * self.s + 4
+    }
+    fn bank(&self, k: usize, f: usize) -> usize {
+        4 * k + f
+    }
+    fn seg(&self, i: usize, f: usize) -> usize {
+        4 * self.b + 4 * i + f
+    }
+    fn glob(&self, f: usize) -> usize {
+        4 * self.b + 4 * self.s + f
+    }
+    /// (what, index of bank/segment, factor)
+    fn locate(&self, idx: usize) -> (u8, usize, usize) {
+        if idx < 4 * self.b {
+            (0, idx / 4, idx % 4)
+        } else if idx < 4 * self.b + 4 * self.s {
+            let r = idx - 4 * self.b;
+            (1, r / 4, r % 4)
+        } else {
+            (2, 0, idx - 4 * self.b - 4 * self.s)
+        }
+    }
+    /// value of the "none" bank reference
+    fn bank_none(&self) -> u8 {
+        self.b as u8
+    }
+    fn bank_nope(&self) -> u8 {
+        self.b as u8 + 1
+    }
+
+    /// allowed values of a factor (depends on the shape and the position only)
+    fn domain(&self, idx: usize, with_next: bool) -> Vec<u8> {
+        match self.locate(idx) {
+            (0, _, F_SIZE) => vec![0, 1, 2, 3],
+            (0, _, _) => vec![0, 1, 2],
+            (1, i, F_START) => {
+                let mut d = vec![0, 1, 2, 3, 4];
+                if i > 0 {
+                    d.push(ST_PREV_END);
+                    d.push(ST_PREV_START);
+                }
+                d.push(7);
+                d.push(8);
+                if with_next && i + 1 < self.s {
+                    d.push(ST_NEXT_END);
+                }
+                d
+            }
+            (1, _, F_BANK) => (0..(self.b as u8 + 2)).collect(),
+            (1, _, _) => vec![0, 1],
+            (2, _, G_FORMAT) => vec![0, 1, 2],
+            (2, _, G_DEFORDER) => {
+                if self.b > 0 {
+                    vec![0, 1]
+                } else {
+                    vec![0]
+                }
+            }
+            _ => vec![0, 1],
+        }
+    }
+
+    /// core start options used for the placement product
+    fn core_starts(&self, i: usize) -> Vec<u8> {
+        if i == 0 {
+            vec![0, 1, 2, 3, 4]
+        } else {
+            vec![0, 1, 2, 3, 4, ST_PREV_END, ST_PREV_START]
+        }
+    }
+
+    fn base(&self) -> Vector {
+        let mut v = vec![0u8; self.len()];
+        for i in 0..self.s {
+            v[self.seg(i, F_START)] = match i {
+                0 => 0,
+                1 => 1,
+                2 => 4,
+                _ => ST_PREV_END,
+            };
+            v[self.seg(i, F_BANK)] = if self.b == 0 {
+                0 // none: the default bank
+            } else {
+                i.min(self.b - 1) as u8
+            };
+        }
+        v
+    }
+
+    fn factor_name(&self, idx: usize, val: u8) -> String {
+        match self.locate(idx) {
+            (0, _, F_SIZE) => format!("bank.size={}", SIZE_NAMES[val as usize]),
+            (0, _, F_FILL) => "bank.fill=set".to_string(),
+            (0, _, F_FILE) => "bank.filename=set".to_string(),
+            (0, _, _) => format!("bank.create-segment={}", CREATE_NAMES[val as usize]),
+            (1, _, F_START) => format!("seg.start={}", START_NAMES[val as usize]),
+            (1, _, F_PC) => format!("seg.pc={}", if val == 0 { "none" } else { "$8000" }),
+            (1, _, F_WRITE) => format!("seg.write={}", if val == 0 { "none" } else { "false" }),
+            (1, _, _) => {
+                if val == self.bank_none() {
+                    "seg.bank=none".to_string()
+                } else if val == self.bank_nope() {
+                    "seg.bank=nope".to_string()
+                } else {
+                    "seg.bank=other".to_string()
+                }
+            }
+            (_, _, G_FORMAT) => format!("format={}", FORMAT_NAMES[val as usize]),
+            (_, _, G_OUTNAME) => format!("output-filename={}", if val == 0 { "unset" } else { "out.x" }),
+            (_, _, G_USEORDER) => format!("use-order={}", if val == 0 { "definition" } else { "reversed" }),
+            _ => format!("def-order={}", if val == 0 { "banks-first" } else { "segments-first" }),
+        }
+    }
+}
+
+/// all vectors that differ from `base` in at most `radius` factors
+fn ball(shape: Shape, base: &Vector, radius: usize, with_next: bool, out: &mut HashSet<(Shape, Vector)>) {
+    fn rec(
+        shape: Shape,
+        cur: &mut Vector,
+        base: &Vector,
+        from: usize,
+        left: usize,
+        with_next: bool,
+        out: &mut HashSet<(Shape, Vector)>,
+    ) {
+        out.insert((shape, cur.clone()));
+        if left == 0 {
+            return;
+        }
+        for idx in from..shape.len() {
+            for val in shape.domain(idx, with_next) {
+                if val == base[idx] {
+                    continue;
+                }
+                cur[idx] = val;
+                rec(shape, cur, base, idx + 1, left - 1, with_next, out);
+            }
+            cur[idx] = base[idx];
+        }
+    }
+    let mut cur = base.clone();
+    rec(shape, &mut cur, base, 0, radius, with_next, out);
+}
+
+/// placement core: product of the core start options x assignment of every segment to a defined bank
+fn placement_bases(shape: Shape, with_assign: bool, sized: bool) -> Vec<Vector> {
+    let mut out = vec![shape.base()];
+    for i in 0..shape.s {
+        let mut next = vec![];
+        for v in &out {
+            for st in shape.core_starts(i) {
+                let banks: Vec<u8> = if with_assign && shape.b > 1 {
+                    (0..shape.b as u8).collect()
+                } else {
+                    vec![v[shape.seg(i, F_BANK)]]
+                };
+                for bk in banks {
+                    let mut w = v.clone();
+                    w[shape.seg(i, F_START)] = st;
+                    w[shape.seg(i, F_BANK)] = bk;
+                    next.push(w);
+                }
+            }
+        }
+        out = next;
+    }
+    if sized && shape.b > 0 {
+        for v in out.iter_mut() {
+            v[shape.bank(0, F_SIZE)] = 2; // +4
+            v[shape.bank(0, F_FILL)] = 2; // $ff
+        }
+    }
+    out
+}
+
+// ------------------------------------------------------------------------------------------------
+// reference model (from the property statement)
+
+#[derive(Clone, Copy, Debug, PartialEq, Eq)]
+enum Origin {
+    Hdr,
+    Seg(usize, usize),
+    Created(usize, usize),
+    Fill,
+    Pad,
+}
+
+#[derive(Clone, Debug)]
+struct FileM {
+    name: String,
+    /// other acceptable name (extension not determined by the statement)
+    alt_name: Option<String>,
+    bytes: Vec<u8>,
+    origin: Vec<Origin>,
+    /// false: contains a piece the statement does not determine -> not compared, may be absent
+    known: bool,
+}
+
+#[derive(Clone, Debug, PartialEq, Eq)]
+enum Verdict {
+    /// nothing is demanded (counter name)
+    NoVerdict(&'static str),
+    /// must fail and leave no file; the classes of error present
+    Error(String),
+    /// must build; failure tolerated for the given reason (statement silent)
+    Builds { tolerate_failure: Option<&'static str> },
+}
+
+#[derive(Clone, Debug)]
+struct Model {
+    verdict: Verdict,
+    files: Vec<FileM>,
+    /// numeric `size` per bank (None = not set)
+    sizes: Vec<Option<usize>>,
+    /// resolved start address per segment
+    starts: Vec<i64>,
+    /// reasons why only a partial comparison is possible
+    partial: Vec<&'static str>,
+}
+
+fn seg_byte(i: usize, j: usize) -> u8 {
+    ((i + 1) * 16 + j) as u8
+}
+fn created_byte(k: usize, j: usize) -> u8 {
+    ((9 + k) * 16 + j) as u8
+}
+
+struct BankImage {
+    /// None: not determined by the statement
+    data: Option<(Vec<u8>, Vec<Origin>)>,
+    /// lowest written address when known
+    lo: Option<i64>,
+    filename: Option<&'static str>,
+}
+
+/// None: the configuration is not well formed (cyclic start dependency) and is not enumerated
+fn model(shape: Shape, v: &Vector) -> Option<Model> {
+    let s = shape.s;
+    let b = shape.b;
+    let g = |f: usize| v[shape.glob(f)];
+    // ---- 1. start addresses
+    let mut starts: Vec<Option<i64>> = vec![None; s];
+    for _ in 0..=s {
+        for i in 0..s {
+            if starts[i].is_some() {
+                continue;
+            }
+            let st = v[shape.seg(i, F_START)];
+            starts[i] = match st {
+                ST_PREV_END => starts[i - 1].map(|x| x + 4),
+                ST_PREV_START => starts[i - 1],
+                ST_NEXT_END => starts[i + 1].map(|x| x + 4),
+                _ => Some(START_ABS[st as usize]),
+            };
+        }
+    }
+    if starts.iter().any(|x| x.is_none()) {
+        return None;
+    }
+    let starts: Vec<i64> = starts.into_iter().map(|x| x.unwrap()).collect();
+
+    let mut total_ambiguity: Option<&'static str> = None;
+    for i in 0..s {
+        let st = v[shape.seg(i, F_START)];
+        if (st == ST_PREV_END && v[shape.seg(i - 1, F_PC)] == 1)
+            || (st == ST_NEXT_END && v[shape.seg(i + 1, F_PC)] == 1)
+        {
+            total_ambiguity = Some("noverdict_end_of_segment_with_pc");
+        }
+    }
+
+    // ---- 2. banks and their members in definition order
+    let nb = b.max(1);
+    let opt = |k: usize, f: usize| if b == 0 { 0 } else { v[shape.bank(k, f)] };
+    let n_created = (0..b).filter(|k| opt(*k, F_CREATE) != 0).count();
+    let total_segments = s + n_created;
+
+    let mut errors: BTreeSet<&'static str> = BTreeSet::new();
+    #[derive(Clone, Copy)]
+    enum Member {
+        Seg(usize),
+        CreatedUsed(usize),
+    }
+    let mut members: Vec<Vec<Member>> = vec![vec![]; nb];
+    let banks_first = g(G_DEFORDER) == 0;
+    if banks_first {
+        for k in 0..b {
+            if opt(k, F_CREATE) == 1 {
+                members[k].push(Member::CreatedUsed(k));
+            }
+        }
+    }
+    for i in 0..s {
+        let bk = v[shape.seg(i, F_BANK)];
+        if starts[i] < 0 || starts[i] + 4 > 0x10000 {
+            errors.insert("out-of-range");
+        }
+        if b == 0 {
+            if bk == 0 {
+                members[0].push(Member::Seg(i));
+            } else {
+                errors.insert("unknown-bank");
+            }
+        } else if bk == shape.bank_none() {
+            if total_segments == 1 {
+                total_ambiguity = total_ambiguity.or(Some("noverdict_single_segment_without_bank"));
+            } else {
+                errors.insert("no-bank");
+            }
+        } else if bk == shape.bank_nope() {
+            errors.insert("unknown-bank");
+        } else {
+            members[bk as usize].push(Member::Seg(i));
+        }
+    }
+    if !banks_first {
+        for k in 0..b {
+            if opt(k, F_CREATE) == 1 {
+                members[k].push(Member::CreatedUsed(k));
+            }
+        }
+    }
+    if g(G_FORMAT) == 1 && nb > 1 {
+        errors.insert("prg-with-several-banks");
+    }
+
+    // ---- 3. bank images
+    let mut partial: Vec<&'static str> = vec![];
+    let mut images: Vec<BankImage> = vec![];
+    let mut sizes: Vec<Option<usize>> = vec![];
+    let mut undetermined_bank = false;
+    for k in 0..nb {
+        let fill_opt = opt(k, F_FILL);
+        let fill: u8 = if fill_opt == 2 { 0xff } else { 0 };
+        let filename = match opt(k, F_FILE) {
+            1 => Some("a.bin"),
+            2 => Some("b.bin"),
+            _ => None,
+        };
+        let writable: Vec<Member> = members[k]
+            .iter()
+            .copied()
+            .filter(|m| match m {
+                Member::Seg(i) => v[shape.seg(*i, F_WRITE)] == 0,
+                Member::CreatedUsed(_) => true,
+            })
+            .collect();
+        let has_created = writable.iter().any(|m| matches!(m, Member::CreatedUsed(_)));
+        // (data, origin, lo) when determined
+        let mut img: Option<(Vec<u8>, Vec<Origin>)> = None;
+        let mut lo: Option<i64> = None;
+        let natural: usize;
+        if writable.is_empty() {
+            partial.push("partial_bank_without_written_bytes");
+            undetermined_bank = true;
+            natural = 4;
+        } else if has_created && writable.len() > 1 {
+            partial.push("partial_created_segment_address_matters");
+            undetermined_bank = true;
+            natural = 8;
+        } else if has_created {
+            // only the created segment: image = its bytes, start address not documented
+            let data: Vec<u8> = (0..4).map(|j| created_byte(k, j)).collect();
+            let origin: Vec<Origin> = (0..4).map(|j| Origin::Created(k, j)).collect();
+            img = Some((data, origin));
+            natural = 4;
+        } else {
+            let idx: Vec<usize> = writable
+                .iter()
+                .map(|m| match m {
+                    Member::Seg(i) => *i,
+                    _ => unreachable!(),
+                })
+                .collect();
+            let l = idx.iter().map(|i| starts[*i]).min().unwrap();
+            let h = idx.iter().map(|i| starts[*i] + 4).max().unwrap();
+            let mut data = vec![fill; (h - l) as usize];
+            let mut origin = vec![Origin::Fill; (h - l) as usize];
+            for i in idx {
+                for j in 0..4 {
+                    let p = (starts[i] - l) as usize + j;
+                    data[p] = seg_byte(i, j);
+                    origin[p] = Origin::Seg(i, j);
+                }
+            }
+            natural = data.len();
+            img = Some((data, origin));
+            lo = Some(l);
+        }
+        let size = match opt(k, F_SIZE) {
+            1 => Some(natural),
+            2 => Some(natural + 4),
+            3 => Some(natural - 1),
+            _ => None,
+        };
+        sizes.push(size);
+        if let (Some(size), Some((data, origin))) = (size, img.as_mut()) {
+            if size < data.len() {
+                errors.insert("bank-larger-than-size");
+            } else if size > data.len() {
+                if fill_opt == 0 {
+                    errors.insert("short-bank-without-fill");
+                } else {
+                    data.resize(size, fill);
+                    origin.resize(size, Origin::Pad);
+                }
+            }
+        }
+        images.push(BankImage {
+            data: img,
+            lo,
+            filename,
+        });
+    }
+
+    // ---- 4. files
+    let format = g(G_FORMAT);
+    let prg = format == 1 || (format == 0 && nb == 1);
+    let ext_open = format == 0 && nb > 1; // unset with several banks: extension not stated
+    let default_name: String = if g(G_OUTNAME) == 1 {
+        "out.x".into()
+    } else if prg {
+        "main.prg".into()
+    } else {
+        "main.bin".into()
+    };
+    let mut files: Vec<FileM> = vec![];
+    for (k, im) in images.iter().enumerate() {
+        let name = im.filename.map(|s| s.to_string()).unwrap_or_else(|| default_name.clone());
+        let pos = match files.iter().position(|f| f.name == name) {
+            Some(p) => p,
+            None => {
+                files.push(FileM {
+                    name: name.clone(),
+                    alt_name: if im.filename.is_none() && ext_open && g(G_OUTNAME) == 0 {
+                        Some("main.prg".into())
+                    } else {
+                        None
+                    },
+                    bytes: vec![],
+                    origin: vec![],
+                    known: true,
+                });
+                files.len() - 1
+            }
+        };
+        let f = &mut files[pos];
+        if prg && k == 0 {
+            match im.lo {
+                Some(l) if im.data.is_some() => {
+                    f.bytes.push((l & 255) as u8);
+                    f.bytes.push(((l >> 8) & 255) as u8);
+                    f.origin.push(Origin::Hdr);
+                    f.origin.push(Origin::Hdr);
+                }
+                _ => {
+                    f.known = false;
+                    if im.data.is_some() {
+                        partial.push("partial_prg_header_of_created_segment");
+                    }
+                }
+            }
+        }
+        match &im.data {
+            Some((d, o)) => {
+                f.bytes.extend(d);
+                f.origin.extend(o);
+            }
+            None => f.known = false,
+        }
+    }
+
+    // ---- 5. verdict
+    let verdict = if let Some(r) = total_ambiguity {
+        Verdict::NoVerdict(r)
+    } else if !errors.is_empty() {
+        Verdict::Error(errors.iter().copied().collect::<Vec<_>>().join("+"))
+    } else if prg && images[0].filename.is_some() {
+        Verdict::NoVerdict("noverdict_prg_header_with_named_bank")
+    } else {
+        let tol = if ext_open {
+            Some("tolerated_failure_unset_format_with_several_banks")
+        } else if undetermined_bank {
+            Some("tolerated_failure_undetermined_bank")
+        } else {
+            None
+        };
+        Verdict::Builds {
+            tolerate_failure: tol,
+        }
+    };
+    partial.sort();
+    partial.dedup();
+    Some(Model {
+        verdict,
+        files,
+        sizes,
+        starts,
+        partial,
+    })
+}
+
+// ------------------------------------------------------------------------------------------------
+// rendering
+
+fn render(shape: Shape, v: &Vector, m: &Model) -> (String, String) {
+    let mut bank_defs = String::new();
+    for k in 0..shape.b {
+        let mut l = format!(".define bank {{ name = \"b{}\"", k + 1);
+        if let Some(sz) = m.sizes[k] {
+            l.push_str(&format!(" size = {}", sz));
+        }
+        match v[shape.bank(k, F_FILL)] {
+            1 => l.push_str(" fill = 0"),
+            2 => l.push_str(" fill = $ff"),
+            _ => {}
+        }
+        match v[shape.bank(k, F_FILE)] {
+            1 => l.push_str(" filename = \"a.bin\""),
+            2 => l.push_str(" filename = \"b.bin\""),
+            _ => {}
+        }
+        if v[shape.bank(k, F_CREATE)] != 0 {
+            l.push_str(" create-segment = true");
+        }
+        l.push_str(" }\n");
+        bank_defs.push_str(&l);
+    }
+    let mut seg_defs = String::new();
+    for i in 0..shape.s {
+        let mut l = format!(".define segment {{ name = \"s{}\"", i + 1);
+        let st = v[shape.seg(i, F_START)];
+        let st_text = match st {
+            ST_PREV_END => format!("segments.s{}.end", i),
+            ST_PREV_START => format!("segments.s{}.start", i),
+            ST_NEXT_END => format!("segments.s{}.end", i + 2),
+            _ => format!("${:04x}", START_ABS[st as usize]),
+        };
+        l.push_str(&format!(" start = {}", st_text));
+        if v[shape.seg(i, F_PC)] == 1 {
+            l.push_str(" pc = $8000");
+        }
+        if v[shape.seg(i, F_WRITE)] == 1 {
+            l.push_str(" write = false");
+        }
+        let bk = v[shape.seg(i, F_BANK)];
+        if shape.b == 0 {
+            if bk == 1 {
+                l.push_str(" bank = \"nope\"");
+            }
+        } else if bk == shape.bank_nope() {
+            l.push_str(" bank = \"nope\"");
+        } else if bk != shape.bank_none() {
+            l.push_str(&format!(" bank = \"b{}\"", bk + 1));
+        }
+        l.push_str(" }\n");
+        seg_defs.push_str(&l);
+    }
+    let mut uses: Vec<String> = vec![];
+    for k in 0..shape.b {
+        if v[shape.bank(k, F_CREATE)] == 1 {
+            let bytes: Vec<String> = (0..4).map(|j| format!("${:02x}", created_byte(k, j))).collect();
+            uses.push(format!(".segment \"b{}\" {{ .byte {} }}\n", k + 1, bytes.join(", ")));
+        }
+    }
+    for i in 0..shape.s {
+        let bytes: Vec<String> = (0..4).map(|j| format!("${:02x}", seg_byte(i, j))).collect();
+        uses.push(format!(".segment \"s{}\" {{ .byte {} }}\n", i + 1, bytes.join(", ")));
+    }
+    if v[shape.glob(G_USEORDER)] == 1 {
+        uses.reverse();
+    }
+    let mut asm = String::new();
+    if v[shape.glob(G_DEFORDER)] == 0 {
+        asm.push_str(&bank_defs);
+        asm.push_str(&seg_defs);
+    } else {
+        asm.push_str(&seg_defs);
+        asm.push_str(&bank_defs);
+    }
+    for u in uses {
+        asm.push_str(&u);
+    }
+    let mut toml = String::from("[build]\n");
+    match v[shape.glob(G_FORMAT)] {
+        1 => toml.push_str("output-format = \"prg\"\n"),
+        2 => toml.push_str("output-format = \"bin\"\n"),
+        _ => {}
+    }
+    if v[shape.glob(G_OUTNAME)] == 1 {
+        toml.push_str("output-filename = \"out.x\"\n");
+    }
+    (asm, toml)
+}
+
+// ------------------------------------------------------------------------------------------------
+// running the real executable
+
+#[derive(Debug, Clone)]
+struct Obs {
+    /// None: killed by a signal
+    exit: Option<i32>,
+    stderr: String,
+    files: BTreeMap<String, Vec<u8>>,
+}
+
+struct Runner {
+    mos: PathBuf,
+    scratch: PathBuf,
+    n: AtomicU64,
+    machinery_failed: AtomicBool,
+    machinery_msg: Mutex<Option<String>>,
+}
+
+impl Runner {
+    fn new(ctx: &Ctx) -> Runner {
+        let mos = std::env::var("MOS_BIN")
+            .map(PathBuf::from)
+            .unwrap_or_else(|_| ctx.verif_root.join(".build/bin/release/mos"));
+        Runner {
+            mos,
+            scratch: ctx.verif_root.join(".build/scratch/c09"),
+            n: AtomicU64::new(0),
+            machinery_failed: AtomicBool::new(false),
+            machinery_msg: Mutex::new(None),
+        }
+    }
+
+    fn fail(&self, msg: String) {
+        self.machinery_failed.store(true, Ordering::SeqCst);
+        let mut m = self.machinery_msg.lock().unwrap();
+        if m.is_none() {
+            *m = Some(msg);
+        }
+    }
+
+    fn run(&self, asm: &str, toml: &str) -> Option<Obs> {
+        let n = self.n.fetch_add(1, Ordering::Relaxed);
+        let dir = self.scratch.join(format!("{}-{}", std::process::id(), n));
+        let r = self.run_in(&dir, asm, toml);
+        let _ = std::fs::remove_dir_all(&dir);
+        match r {
+            Ok(o) => Some(o),
+            Err(e) => {
+                self.fail(e);
+                None
+            }
+        }
+    }
+
+    fn run_in(&self, dir: &Path, asm: &str, toml: &str) -> Result<Obs, String> {
+        let _ = std::fs::remove_dir_all(dir);
+        std::fs::create_dir_all(dir).map_err(|e| format!("mkdir {}: {}", dir.display(), e))?;
+        std::fs::write(dir.join("main.asm"), asm).map_err(|e| format!("write main.asm: {}", e))?;
+        std::fs::write(dir.join("mos.toml"), toml).map_err(|e| format!("write mos.toml: {}", e))?;
+        let out = Command::new(&self.mos)
+            .args(["-e", "Short", "--no-color", "build"])
+            .current_dir(dir)
+            .env_remove("RUST_LOG")
+            .env("RUST_BACKTRACE", "0")
+            .stdin(std::process::Stdio::null())
+            .output()
+            .map_err(|e| format!("cannot run {}: {}", self.mos.display(), e))?;
+        let mut files = BTreeMap::new();
+        let target = dir.join("target");
+        if let Ok(rd) = std::fs::read_dir(&target) {
+            for e in rd.flatten() {
+                let p = e.path();
+                if p.is_file() {
+                    let bytes = std::fs::read(&p).map_err(|e| format!("read {}: {}", p.display(), e))?;
+                    files.insert(e.file_name().to_string_lossy().to_string(), bytes);
+                }
+            }
+        }
+        let mut stderr = String::from_utf8_lossy(&out.stderr).to_string();
+        stderr.push_str(&String::from_utf8_lossy(&out.stdout));
+        Ok(Obs {
+            exit: out.status.code(),
+            stderr,
+            files,
+        })
+    }
+}
+
+// ------------------------------------------------------------------------------------------------
+// oracle
+
+#[derive(Debug, Clone)]
+struct Outcome {
+    /// Some(kind, description) when the configuration fails the oracle
+    failure: Option<(String, String)>,
+    /// counters to bump
+    counts: Vec<&'static str>,
+    compared_files: u64,
+    compared_bytes: u64,
+    took_verdict: bool,
+    obs_hash: u64,
+    exit_ok: bool,
+    panicked: bool,
+}
+
+fn obs_label(bv: u8) -> &'static str {
+    let hi = bv >> 4;
+    let lo = bv & 15;
+    if bv == 0 || bv == 0xff {
+        "filler"
+    } else if (1..=6).contains(&hi) && lo < 4 {
+        "seg"
+    } else if (9..=12).contains(&hi) && lo < 4 {
+        "created-seg"
+    } else {
+        "other"
+    }
+}
+
+fn diff_kind(f: &FileM, got: &[u8]) -> Option<(String, String)> {
+    if f.bytes.len() != got.len() {
+        let k = if got.len() > f.bytes.len() { "size-longer" } else { "size-shorter" };
+        return Some((
+            k.to_string(),
+            format!(
+                "file {} has {} bytes, the model gives {}: found {} expected {}",
+                f.name,
+                got.len(),
+                f.bytes.len(),
+                hex(got),
+                hex(&f.bytes)
+            ),
+        ));
+    }
+    for p in 0..got.len() {
+        if f.bytes[p] != got[p] {
+            let exp = match f.origin[p] {
+                Origin::Hdr => "prg-header".to_string(),
+                Origin::Seg(..) => "seg".to_string(),
+                Origin::Created(..) => "created-seg".to_string(),
+                Origin::Fill => "fill".to_string(),
+                Origin::Pad => "pad".to_string(),
+            };
+            let mut obs = obs_label(got[p]).to_string();
+            if let (Origin::Seg(i, j), "seg") = (f.origin[p], obs.as_str()) {
+                let oi = (got[p] >> 4) as usize - 1;
+                let oj = (got[p] & 15) as usize;
+                obs = if oi == i && oj != j {
+                    "same-seg-shifted".into()
+                } else if oi < i {
+                    "earlier-seg".into()
+                } else {
+                    "later-seg".into()
+                };
+            }
+            return Some((
+                format!("byte-from-{}-expected-{}", obs, exp),
+                format!(
+                    "file {} offset {}: found ${:02x}, the model places ${:02x} ({:?}) there; file is {} expected {}",
+                    f.name,
+                    p,
+                    got[p],
+                    f.bytes[p],
+                    f.origin[p],
+                    hex(got),
+                    hex(&f.bytes)
+                ),
+            ));
+        }
+    }
+    None
+}
+
+fn hex(b: &[u8]) -> String {
+    if b.len() > 48 {
+        format!(
+            "[{} … {} ({} bytes)]",
+            crate::util::hex_bytes(&b[..24]),
+            crate::util::hex_bytes(&b[b.len() - 16..]),
+            b.len()
+        )
+    } else {
+        format!("[{}]", crate::util::hex_bytes(b))
+    }
+}
+
+fn judge(m: &Model, obs: &Obs) -> Outcome {
+    let exit_ok = obs.exit == Some(0);
+    let panicked = obs.exit == Some(101) || obs.exit.is_none() || obs.stderr.contains("panicked at");
+    let mut h: Vec<u8> = vec![];
+    h.extend(format!("{:?}", obs.exit).bytes());
+    for (n, b) in &obs.files {
+        h.extend(n.bytes());
+        h.push(0);
+        h.extend(b);
+        h.push(1);
+    }
+    let mut o = Outcome {
+        failure: None,
+        counts: vec![],
+        compared_files: 0,
+        compared_bytes: 0,
+        took_verdict: false,
+        obs_hash: fnv(&h),
+        exit_ok,
+        panicked,
+    };
+    let first_line = obs.stderr.lines().next().unwrap_or("").to_string();
+    match &m.verdict {
+        Verdict::NoVerdict(r) => o.counts.push(r),
+        Verdict::Error(class) => {
+            o.took_verdict = true;
+            o.counts.push("verdict_error_demanded");
+            if exit_ok {
+                o.failure = Some((
+                    "exit0-on-error".to_string(),
+                    format!(
+                        "the configuration must be rejected ({}) but mos exits 0 and writes {}",
+                        class,
+                        obs.files
+                            .iter()
+                            .map(|(n, b)| format!("{}={}", n, hex(b)))
+                            .collect::<Vec<_>>()
+                            .join(" ")
+                    ),
+                ));
+            } else if !obs.files.is_empty() {
+                o.failure = Some((
+                    "file-written-on-error".to_string(),
+                    format!(
+                        "mos fails ({}) but leaves files in target/: {}",
+                        first_line,
+                        obs.files.keys().cloned().collect::<Vec<_>>().join(",")
+                    ),
+                ));
+            }
+        }
+        Verdict::Builds { tolerate_failure } => {
+            if !exit_ok {
+                match tolerate_failure {
+                    Some(r) => o.counts.push(r),
+                    None => {
+                        o.took_verdict = true;
+                        o.failure = Some((
+                            "failed-on-valid".into(),
+                            format!(
+                                "the configuration is valid but mos exits {:?}: {}",
+                                obs.exit, first_line
+                            ),
+                        ));
+                    }
+                }
+                return o;
+            }
+            o.took_verdict = true;
+            if m.files.iter().all(|f| f.known) {
+                o.counts.push("verdict_builds_full");
+            } else {
+                o.counts.push("verdict_builds_partial");
+            }
+            for p in &m.partial {
+                o.counts.push(p);
+            }
+            // which observed file corresponds to each model file
+            let mut claimed: BTreeSet<String> = BTreeSet::new();
+            let mut failure: Option<(String, String)> = None;
+            for f in &m.files {
+                let found = if obs.files.contains_key(&f.name) {
+                    Some(f.name.clone())
+                } else {
+                    match &f.alt_name {
+                        Some(a) if obs.files.contains_key(a) => {
+                            o.counts.push("default_file_named_prg_for_bin_layout");
+                            Some(a.clone())
+                        }
+                        _ => None,
+                    }
+                };
+                match found {
+                    Some(n) => {
+                        claimed.insert(n.clone());
+                        if f.known {
+                            o.compared_files += 1;
+                            o.compared_bytes += f.bytes.len() as u64;
+                            if failure.is_none() {
+                                failure = diff_kind(f, &obs.files[&n]);
+                            }
+                        }
+                    }
+                    None => {
+                        if f.known && failure.is_none() {
+                            failure = Some((
+                                "missing-file".into(),
+                                format!(
+                                    "file {} ({} bytes) is not in target/; files present: {}",
+                                    f.name,
+                                    f.bytes.len(),
+                                    obs.files
+                                        .iter()
+                                        .map(|(n, b)| format!("{}={}", n, hex(b)))
+                                        .collect::<Vec<_>>()
+                                        .join(" ")
+                                ),
+                            ));
+                        }
+                    }
+                }
+            }
+            // missing-file is reported before extra-file, extra-file before content
+            let extra: Vec<&String> = obs.files.keys().filter(|n| !claimed.contains(*n)).collect();
+            let is_missing = matches!(&failure, Some((k, _)) if k == "missing-file");
+            if !extra.is_empty() && !is_missing {
+                failure = Some((
+                    "extra-file".into(),
+                    format!(
+                        "target/ contains {} which no bank is written to; model files: {}",
+                        extra
+                            .iter()
+                            .map(|n| format!("{}={}", n, hex(&obs.files[*n])))
+                            .collect::<Vec<_>>()
+                            .join(" "),
+                        m.files
+                            .iter()
+                            .map(|f| if f.known {
+                                format!("{}={}", f.name, hex(&f.bytes))
+                            } else {
+                                format!("{}=<undetermined>", f.name)
+                            })
+                            .collect::<Vec<_>>()
+                            .join(" ")
+                    ),
+                ));
+            }
+            o.failure = failure;
+        }
+    }
+    o
+}
+
+// ------------------------------------------------------------------------------------------------
+// driver
+
+fn shape_class(shape: Shape) -> String {
+    (if shape.s == 1 { "S1" } else { "S>1" }).to_string()
+}
+
+/// `exit0-on-error` -> `exit0-on-<classes of error the model sees in this configuration>`
+fn final_kind(kind: &str, m: &Model) -> String {
+    match (&m.verdict, kind.strip_suffix("-on-error")) {
+        (Verdict::Error(c), Some(prefix)) => format!("{}-on-{}", prefix, c),
+        _ => kind.to_string(),
+    }
+}
+
+fn config_class(shape: Shape, v: &Vector) -> String {
+    let base = shape.base();
+    let mut names: BTreeSet<String> = BTreeSet::new();
+    for idx in 0..shape.len() {
+        if v[idx] != base[idx] {
+            names.insert(shape.factor_name(idx, v[idx]));
+        }
+    }
+    let devs = if names.is_empty() {
+        "base".to_string()
+    } else {
+        names.into_iter().collect::<Vec<_>>().join("+")
+    };
+    format!("{}:{}", shape_class(shape), devs)
+}
+
+fn describe(shape: Shape, v: &Vector) -> Value {
+    let mut banks = vec![];
+    for k in 0..shape.b {
+        banks.push(json!({
+            "name": format!("b{}", k + 1),
+            "size": SIZE_NAMES[v[shape.bank(k, F_SIZE)] as usize],
+            "fill": FILL_NAMES[v[shape.bank(k, F_FILL)] as usize],
+            "filename": FILE_NAMES[v[shape.bank(k, F_FILE)] as usize],
+            "create-segment": CREATE_NAMES[v[shape.bank(k, F_CREATE)] as usize],
+        }));
+    }
+    let mut segs = vec![];
+    for i in 0..shape.s {
+        let bk = v[shape.seg(i, F_BANK)];
+        let bank = if shape.b == 0 {
+            if bk == 0 { "none".to_string() } else { "nope".to_string() }
+        } else if bk == shape.bank_none() {
+            "none".to_string()
+        } else if bk == shape.bank_nope() {
+            "nope".to_string()
+        } else {
+            format!("b{}", bk + 1)
+        };
+        segs.push(json!({
+            "name": format!("s{}", i + 1),
+            "start": START_NAMES[v[shape.seg(i, F_START)] as usize],
+            "pc": v[shape.seg(i, F_PC)] == 1,
+            "write": v[shape.seg(i, F_WRITE)] == 0,
+            "bank": bank,
+        }));
+    }
+    json!({
+        "banks": banks, "segments": segs,
+        "output-format": FORMAT_NAMES[v[shape.glob(G_FORMAT)] as usize],
+        "output-filename": if v[shape.glob(G_OUTNAME)] == 1 { "out.x" } else { "unset" },
+        "segment-blocks": if v[shape.glob(G_USEORDER)] == 1 { "reversed" } else { "definition-order" },
+        "definitions": if v[shape.glob(G_DEFORDER)] == 1 { "segments-first" } else { "banks-first" },
+    })
+}
+
+fn case_json(shape: Shape, v: &Vector, asm: &str, toml: &str) -> Value {
+    json!({
+        "kind": "layout",
+        "shape": {"banks": shape.b, "segments": shape.s},
+        "vector": v,
+        "config": describe(shape, v),
+        "files": {"main.asm": asm, "mos.toml": toml},
+        "command": "mos -e Short --no-color build   (cwd = directory with the two files; outputs in target/)",
+    })
+}
+
+/// one configuration through model, real executable and oracle
+fn evaluate(rn: &Runner, shape: Shape, v: &Vector) -> Option<(Model, String, String, Obs, Outcome)> {
+    let m = model(shape, v)?;
+    let (asm, toml) = render(shape, v, &m);
+    let obs = rn.run(&asm, &toml)?;
+    let out = judge(&m, &obs);
+    Some((m, asm, toml, obs, out))
+}
+
+/// greedy reduction towards the canonical base / a smaller shape, keeping the failure kind
+fn minimize(
+    rn: &Runner,
+    budget: &AtomicU64,
+    shape: Shape,
+    v: &Vector,
+    kind: &str,
+) -> Option<(Shape, Vector)> {
+    let mut shape = shape;
+    let mut v = v.clone();
+    let same = |sh: Shape, cand: &Vector| -> Option<bool> {
+        if budget.fetch_update(Ordering::SeqCst, Ordering::SeqCst, |b| b.checked_sub(1)).is_err() {
+            return None;
+        }
+        match evaluate(rn, sh, cand) {
+            Some((_, _, _, _, o)) => Some(matches!(&o.failure, Some((k, _)) if k == kind)),
+            None => Some(false),
+        }
+    };
+    loop {
+        let mut changed = false;
+        // drop a segment (later segments are renumbered; their bytes change with their number)
+        let mut i = shape.s;
+        while i > 0 && shape.s > 1 {
+            i -= 1;
+            if i >= shape.s {
+                continue;
+            }
+            let ns = Shape { b: shape.b, s: shape.s - 1 };
+            let mut c = v.clone();
+            let at = shape.seg(i, 0);
+            c.drain(at..at + 4);
+            let first = c[ns.seg(0, F_START)];
+            let last = c[ns.seg(ns.s - 1, F_START)];
+            if first == ST_PREV_END || first == ST_PREV_START || last == ST_NEXT_END {
+                continue;
+            }
+            if same(ns, &c)? {
+                shape = ns;
+                v = c;
+                changed = true;
+            }
+        }
+        // drop a bank no segment refers to
+        let mut k = shape.b;
+        while k > 0 && shape.b > 1 {
+            k -= 1;
+            if k >= shape.b || (0..shape.s).any(|i| v[shape.seg(i, F_BANK)] == k as u8) {
+                continue;
+            }
+            let ns = Shape { b: shape.b - 1, s: shape.s };
+            let mut c = v.clone();
+            for i in 0..shape.s {
+                let x = &mut c[shape.seg(i, F_BANK)];
+                if *x > k as u8 {
+                    *x -= 1;
+                }
+            }
+            let at = shape.bank(k, 0);
+            c.drain(at..at + 4);
+            if same(ns, &c)? {
+                shape = ns;
+                v = c;
+                changed = true;
+            }
+        }
+        // reset factors to their base value
+        let base = shape.base();
+        for idx in 0..shape.len() {
+            if v[idx] != base[idx] {
+                let mut c = v.clone();
+                c[idx] = base[idx];
+                if same(shape, &c)? {
+                    v = c;
+                    changed = true;
+                }
+            }
+        }
+        if !changed {
+            break;
+        }
+    }
+    Some((shape, v))
+}
+
+fn print_obs(obs: &Obs) {
+    println!("exit status: {:?}", obs.exit);
+    for l in obs.stderr.lines().take(12) {
+        println!("  | {}", l);
+    }
+    if obs.files.is_empty() {
+        println!("target/: no regular file");
+    }
+    for (n, b) in &obs.files {
+        println!("target/{} ({} bytes): {}", n, b.len(), hex(b));
+    }
+}
+
+fn replay(ctx: &Ctx, case: &Value) -> i32 {
+    let rn = Runner::new(ctx);
+    if !rn.mos.is_file() {
+        eprintln!("C09: mos executable not found at {} (set MOS_BIN)", rn.mos.display());
+        return 2;
+    }
+    let asm = case["files"]["main.asm"].as_str().unwrap_or("").to_string();
+    let toml = case["files"]["mos.toml"].as_str().unwrap_or("[build]\n").to_string();
+    println!("replaying C09 case with {}:\n--- main.asm\n{}--- mos.toml\n{}---", rn.mos.display(), asm, toml);
+    let obs = match rn.run(&asm, &toml) {
+        Some(o) => o,
+        None => {
+            eprintln!("C09: {}", rn.machinery_msg.lock().unwrap().clone().unwrap_or_default());
+            return 2;
+        }
+    };
+    print_obs(&obs);
+    // the model's view, when the case carries its vector
+    let shape = Shape {
+        b: case["shape"]["banks"].as_u64().unwrap_or(0) as usize,
+        s: case["shape"]["segments"].as_u64().unwrap_or(0) as usize,
+    };
+    let v: Vector = case["vector"]
+        .as_array()
+        .map(|a| a.iter().map(|x| x.as_u64().unwrap_or(0) as u8).collect())
+        .unwrap_or_default();
+    if shape.s > 0 && v.len() == shape.len() {
+        if let Some(m) = model(shape, &v) {
+            println!("model: {:?}", m.verdict);
+            if matches!(m.verdict, Verdict::Builds { .. }) {
+                for f in &m.files {
+                    if f.known {
+                        println!("model file {} ({} bytes): {}", f.name, f.bytes.len(), hex(&f.bytes));
+                    } else {
+                        println!("model file {}: not determined by the statement", f.name);
+                    }
+                }
+            }
+            let (asm2, toml2) = render(shape, &v, &m);
+            if asm2 == asm && toml2 == toml {
+                let o = judge(&m, &obs);
+                match o.failure {
+                    Some((k, d)) => {
+                        println!("oracle: FAILS ({}) {}", k, d);
+                        return 1;
+                    }
+                    None => println!("oracle: agrees (verdict taken: {})", o.took_verdict),
+                }
+            } else {
+                println!("(files differ from the rendering of the vector: model not applied)");
+            }
+        }
+    }
+    0
+}
+
+struct Plan {
+    /// (shape, canonical radius, placement radius (None = no placement product), sized placement radius)
+    items: Vec<(Shape, usize, Option<usize>, Option<usize>)>,
+    with_next: bool,
+}
+
+fn plan(thorough: bool) -> Plan {
+    let mut items = vec![];
+    if !thorough {
+        for b in 0..=2usize {
+            for s in 1..=3usize {
+                let sh = Shape { b, s };
+                let canon = if s <= 2 { 3 } else { 2 };
+                let place = Some(if s <= 2 { 1 } else { 1 });
+                let sized = if b > 0 { Some(if s <= 2 { 1 } else { 0 }) } else { None };
+                items.push((sh, canon, place, sized));
+            }
+        }
+        // lines beyond the bound: one factor at a time
+        for s in 1..=6usize {
+            items.push((Shape { b: 4, s }, if s == 6 { 1 } else { 0 }, None, None));
+        }
+        for b in 0..=3usize {
+            items.push((Shape { b, s: 6 }, 1, None, None));
+        }
+        items.push((Shape { b: 3, s: 3 }, 1, None, None));
+    } else {
+        for b in 0..=3usize {
+            for s in 1..=4usize {
+                let sh = Shape { b, s };
+                let canon = if s <= 2 { 4 } else { 3 };
+                let place = Some(match s {
+                    1 | 2 => 2,
+                    3 => 1,
+                    _ => 0,
+                });
+                let sized = if b > 0 {
+                    Some(match s {
+                        1 | 2 => 2,
+                        3 => 1,
+                        _ => 0,
+                    })
+                } else {
+                    None
+                };
+                items.push((sh, canon, place, sized));
+            }
+        }
+        for s in 1..=6usize {
+            items.push((Shape { b: 4, s }, if s == 6 { 2 } else { 1 }, None, None));
+        }
+        for b in 0..=3usize {
+            items.push((Shape { b, s: 6 }, 2, None, None));
+            items.push((Shape { b, s: 5 }, 1, None, None));
+        }
+    }
+    Plan {
+        items,
+        with_next: true,
+    }
+}
+
+pub fn run(ctx: &Ctx, replay_case: Option<&Value>) -> i32 {
+    if let Some(c) = replay_case {
+        return replay(ctx, c);
+    }
+    let rn = Runner::new(ctx);
+    if !rn.mos.is_file() {
+        eprintln!(
+            "C09: MACHINERY: mos executable not found at {} (build it: cd /repo && CARGO_TARGET_DIR=/verif/.build/bin cargo build --release --offline -p mos; or set MOS_BIN)",
+            rn.mos.display()
+        );
+        return 2;
+    }
+    let _ = std::fs::create_dir_all(&rn.scratch);
+    let thorough = ctx.tier.is_thorough();
+    let pl = plan(thorough);
+
+    // ---- enumerate
+    let mut space: HashSet<(Shape, Vector)> = HashSet::new();
+    let mut plan_desc = vec![];
+    for (sh, canon, place, sized) in &pl.items {
+        let before = space.len();
+        ball(*sh, &sh.base(), *canon, pl.with_next, &mut space);
+        let mut nbases = 1usize;
+        if let Some(r) = place {
+            for assign in [false, true] {
+                let bases = placement_bases(*sh, assign, false);
+                nbases += bases.len();
+                for bv in &bases {
+                    // the assignment product is taken at radius 0 only
+                    ball(*sh, bv, if assign { 0 } else { *r }, pl.with_next, &mut space);
+                }
+            }
+        }
+        if let Some(r) = sized {
+            let bases = placement_bases(*sh, false, true);
+            nbases += bases.len();
+            for bv in &bases {
+                ball(*sh, bv, *r, pl.with_next, &mut space);
+            }
+        }
+        plan_desc.push(json!({
+            "banks": sh.b, "segments": sh.s, "radius_around_canonical_base": canon,
+            "radius_around_placement_product": place, "radius_around_sized_placement_product": sized,
+            "bases": nbases, "configurations_added": space.len() - before,
+        }));
+    }
+    let mut cases: Vec<(Shape, Vector)> = space.into_iter().collect();
+    cases.sort();
+    ctx.set("plan", json!(plan_desc));
+    ctx.set("configurations_enumerated", json!(cases.len()));
+    ctx.set("mos_bin", json!(rn.mos.display().to_string()));
+
+    let outcomes: Mutex<HashSet<u64>> = Mutex::new(HashSet::new());
+    let error_classes: Mutex<BTreeMap<String, u64>> = Mutex::new(BTreeMap::new());
+    let first_panic: Mutex<Option<Value>> = Mutex::new(None);
+    let budget = AtomicU64::new(if thorough { 150_000 } else { 15_000 });
+    let budget_start = budget.load(Ordering::SeqCst);
+    let files_compared = AtomicU64::new(0);
+    let bytes_compared = AtomicU64::new(0);
+
+    cases.par_iter().for_each(|(shape, v)| {
+        if rn.machinery_failed.load(Ordering::Relaxed) {
+            return;
+        }
+        let m = match model(*shape, v) {
+            Some(m) => m,
+            None => {
+                ctx.count("skipped_cyclic_start_dependency");
+                return;
+            }
+        };
+        let (asm, toml) = render(*shape, v, &m);
+        let obs = match rn.run(&asm, &toml) {
+            Some(o) => o,
+            None => return,
+        };
+        ctx.eval(|| case_json(*shape, v, &asm, &toml));
+        let o = judge(&m, &obs);
+        for c in &o.counts {
+            ctx.count(c);
+        }
+        ctx.count(if o.exit_ok { "mos_exit_0" } else { "mos_exit_nonzero" });
+        if o.panicked {
+            ctx.count("mos_panicked_or_killed");
+            let mut fp = first_panic.lock().unwrap();
+            if fp.is_none() {
+                *fp = Some(json!({"case": case_json(*shape, v, &asm, &toml), "stderr": obs.stderr.lines().take(4).collect::<Vec<_>>()}));
+            }
+        }
+        if let Verdict::Error(c) = &m.verdict {
+            *error_classes.lock().unwrap().entry(c.clone()).or_insert(0) += 1;
+        }
+        if o.took_verdict {
+            let mut key: Vec<u8> = vec![shape.b as u8, shape.s as u8];
+            key.extend(v);
+            ctx.nontrivial(fnv(&key));
+        }
+        files_compared.fetch_add(o.compared_files, Ordering::Relaxed);
+        bytes_compared.fetch_add(o.compared_bytes, Ordering::Relaxed);
+        outcomes.lock().unwrap().insert(o.obs_hash);
+        if let Some((kind, what)) = &o.failure {
+            ctx.count("failing_configurations");
+            // reduce, then name the class by what is left
+            let (sig, case, what) = match minimize(&rn, &budget, *shape, v, kind) {
+                Some((ms, mv)) => {
+                    let mm = model(ms, &mv).unwrap();
+                    let (masm, mtoml) = render(ms, &mv, &mm);
+                    let what2 = match rn.run(&masm, &mtoml) {
+                        Some(mobs) => judge(&mm, &mobs).failure.map(|f| f.1).unwrap_or_else(|| what.clone()),
+                        None => what.clone(),
+                    };
+                    (
+                        format!("layout:{}:{}", final_kind(kind, &mm), config_class(ms, &mv)),
+                        case_json(ms, &mv, &masm, &mtoml),
+                        what2,
+                    )
+                }
+                None => (
+                    format!("layout:{}:{}:unreduced", final_kind(kind, &m), shape_class(*shape)),
+                    case_json(*shape, v, &asm, &toml),
+                    what.clone(),
+                ),
+            };
+            ctx.finding(Finding::new(sig, what, case));
+        }
+    });
+
+    if rn.machinery_failed.load(Ordering::SeqCst) {
+        eprintln!(
+            "C09: MACHINERY: {}",
+            rn.machinery_msg.lock().unwrap().clone().unwrap_or_default()
+        );
+        return 2;
+    }
+    ctx.set("distinct_observed_outcomes", json!(outcomes.lock().unwrap().len()));
+    ctx.set("error_classes_demanded", json!(error_classes.lock().unwrap().clone()));
+    ctx.set("files_compared_byte_for_byte", json!(files_compared.load(Ordering::Relaxed)));
+    ctx.set("bytes_compared", json!(bytes_compared.load(Ordering::Relaxed)));
+    ctx.set("reduction_runs", json!(budget_start - budget.load(Ordering::SeqCst)));
+    if let Some(p) = first_panic.lock().unwrap().clone() {
+        ctx.set("first_panic", p);
+    }
+    if budget.load(Ordering::SeqCst) == 0 {
+        ctx.note("reduction budget exhausted: later failing configurations carry an ':unreduced' signature");
+    }
+    let _ = std::fs::remove_dir(&rn.scratch);
+
+    ctx.finish(
+        "exploration",
+        "every enumerated bank/segment/option configuration is written to a fresh project and built by the real `mos` executable; exit status and every file in target/ are compared with a layout model written from the property statement (span lowest..highest written address per bank, later-defined segment wins, gaps = fill, write=false contributes nothing, padding to size, prg header, files grouped by bank filename in definition order; error + no file for oversize / short without fill / unknown or no bank / data beyond $FFFF / prg with several banks). The space is the union of Hamming balls (all configurations differing in <= r factors) around the canonical base of every shape and around the full product of start options x bank assignment (plain and with a sized, filled first bank); radii in `plan`. Non-trivial = distinct configurations on which a verdict was taken (error demanded, or at least exit status and every determined file compared byte for byte)",
+        true,
+        &[
+            "bounded: shapes, option values and deviation radii as listed in `plan`; the full product of all factors is NOT enumerated (one process per configuration), only all <= r-factor deviations from the listed bases",
+            "every segment holds exactly 4 bytes written by one `.byte` statement; `*=` inside segments, empty user segments and larger segments are not covered",
+            "the address of a segment for layout purposes is its `start` (docs: 'assembled to start ... as if located at pc'); `segments.x.end` of a segment with `pc` is not decided",
+            "no verdict (counted): single segment without bank while banks are defined; prg while the only bank has its own filename; files containing a bank without written bytes or a create-segment segment whose (undocumented) start matters; output-format unset with several banks may fail and may name the default file .prg or .bin",
+            "the layout model is trusted; it was written from the statement, not from binary_writer.rs",
+            "a panic of mos counts as an error exit (counted in mos_panicked_or_killed), clean termination is C06's subject",
+        ],
+    )
 }
